@@ -391,5 +391,8 @@ def run(spec):
             res.count("json_restart_sorts")
             nix = D.index(new)
             director_sorts(res, new, nix, names, wpids, "Director-initiated on the project restored from JSON", tr.project.time)
+            # ... and its own allocation ranks with the restored rules (whatever type they came back as)
+            scen.simulate(new, spec["cfg"], want_sorts=True, sort_keyfn=keyfn, want_snap=False)
+            res.count("restored_project_simulated")
     res.nontrivial = res.stats.get("sort_calls_nontrivial", 0) > 0 and contention
     return C.finish(res, tr)
